@@ -15,7 +15,7 @@
     from the recomputed one (reader), and for every quota type the usage records parsed from the quota file (own parser of
     the v2r1 quota tree, written from the format definition) next to the per-inode facts the accounting rule of
     Tune!RealUsage is applied to by TLC."""
-import os, sys, json, struct, shutil, hashlib, concurrent.futures as cf
+import os, sys, json, struct, shutil, hashlib, time, concurrent.futures as cf
 from common import run as sh, tool_env, Lock, VERIF
 import ext4read
 
@@ -382,8 +382,8 @@ def rich_images(b, basedir, profiles, params, cat):
     with Lock(os.path.join(b, "verif-c11.lock")):
         if os.path.exists(meta):
             return outdir, json.load(open(meta))
-        for d in os.listdir(b):
-            if d.startswith("verif-c11-"):
+        for d in os.listdir(b):          # stale sets of another tree / catalogue (not one a concurrent run may still be reading)
+            if d.startswith("verif-c11-") and time.time() - os.path.getmtime(os.path.join(b, d)) > 7200:
                 shutil.rmtree(os.path.join(b, d), ignore_errors=True)
         os.makedirs(outdir)
         _sources(outdir, cat["rows"])
@@ -398,6 +398,20 @@ def rich_images(b, basedir, profiles, params, cat):
 if __name__ == "__main__":
     if len(sys.argv) == 4 and sys.argv[1] == "--observe":
         sys.stdout.write(json.dumps(observe(sys.argv[2], sys.argv[3] == "1"), separators=(",", ":")))
+        sys.exit(0)
+    if len(sys.argv) == 2 and sys.argv[1] == "--serve":
+        # one request per line: <0|1 want_quota> <tab> <image path>; one JSON answer per line
+        for ln in sys.stdin:
+            ln = ln.rstrip("\n")
+            if not ln:
+                continue
+            want, path = ln.split("\t", 1)
+            try:
+                o = observe(path, want == "1")
+            except Exception as ex:
+                o = {"fatal": "observer exception %s: %s" % (type(ex).__name__, str(ex)[:200])}
+            sys.stdout.write(json.dumps(o, separators=(",", ":")) + "\n")
+            sys.stdout.flush()
         sys.exit(0)
     print(json.dumps(census(sys.argv[1]), indent=1))
     if len(sys.argv) > 2:
